@@ -24,6 +24,8 @@ pub struct RepoInfo {
     pub hexrefs: Vec<String>,
     pub conflicted: bool,
     pub words: Vec<&'static str>,
+    /// the repository as facts for the resolution model (`res` ops), see `export_facts`
+    pub facts: String,
 }
 
 fn git_at(dir: &Path, date: i64, args: &[&str]) -> GitOut {
@@ -307,8 +309,215 @@ pub fn build_repo(seed: u64, scratch: &Scratch) -> RepoInfo {
         hexrefs,
         conflicted,
         words: WORDS.to_vec(),
+        facts: String::new(),
+    }
+    .with_facts()
+}
+
+impl RepoInfo {
+    fn with_facts(mut self) -> Self {
+        self.facts = export_facts(&self.dir);
+        self
     }
 }
+
+/// Everything the resolution model needs to know about the repository, as op-line tokens:
+/// objects (`o id kind parents tree target`), refs (`r name obj`), HEAD's branch (`h name`), reflogs
+/// (`l name ids`, newest first), prior checkouts (`c from-branch previous-id`), tracking branches
+/// (`u branch push? ref`), tree entries by path (`p tree path obj`) and index entries (`i path stage obj`).
+/// All of it is read with plumbing commands of the git binary or straight from files under `.git`.
+pub fn export_facts(dir: &Path) -> String {
+    use std::fmt::Write as _;
+    let out = |args: &[&str]| -> Vec<u8> { git(dir, args, None).stdout };
+    let text = |args: &[&str]| -> String { String::from_utf8_lossy(&out(args)).to_string() };
+    let mut ids: Vec<(String, String)> = Vec::new();
+    for line in text(&["cat-file", "--batch-all-objects", "--batch-check"]).lines() {
+        let f: Vec<&str> = line.split(' ').collect();
+        ids.push((f[0].to_string(), f[1].to_string()));
+    }
+    let idx: BTreeMap<String, usize> = ids.iter().enumerate().map(|(i, (h, _))| (h.clone(), i)).collect();
+    let ix = |h: &str| -> String { idx.get(h).map_or("-".to_string(), |i| i.to_string()) };
+    // commits and tags: parents / tree / target from their content
+    let wanted: Vec<&(String, String)> = ids.iter().filter(|(_, k)| k == "commit" || k == "tag").collect();
+    let input: String = wanted.iter().map(|(h, _)| format!("{h}\n")).collect();
+    let raw = git(dir, &["cat-file", "--batch"], Some(input.as_bytes())).stdout;
+    let mut meta: BTreeMap<String, (Vec<String>, String, String)> = BTreeMap::new();
+    let mut pos = 0usize;
+    while pos < raw.len() {
+        let nl = match raw[pos..].iter().position(|b| *b == b'\n') {
+            Some(n) => pos + n,
+            None => break,
+        };
+        let header = String::from_utf8_lossy(&raw[pos..nl]).to_string();
+        let f: Vec<&str> = header.split(' ').collect();
+        if f.len() != 3 {
+            break;
+        }
+        let size: usize = f[2].parse().unwrap_or(0);
+        let body = &raw[nl + 1..nl + 1 + size];
+        let (mut parents, mut tree, mut target) = (Vec::new(), String::new(), String::new());
+        for l in String::from_utf8_lossy(body).lines() {
+            if l.is_empty() {
+                break;
+            }
+            if let Some(r) = l.strip_prefix("tree ") {
+                tree = r.to_string();
+            } else if let Some(r) = l.strip_prefix("parent ") {
+                parents.push(r.to_string());
+            } else if let Some(r) = l.strip_prefix("object ") {
+                target = r.to_string();
+            }
+        }
+        meta.insert(f[0].to_string(), (parents, tree, target));
+        pos = nl + 1 + size + 1;
+    }
+    let mut s = String::new();
+    for (h, k) in &ids {
+        let kk = match k.as_str() {
+            "commit" => "c",
+            "tree" => "t",
+            "blob" => "b",
+            _ => "T",
+        };
+        let (ps, tr, tg) = meta.get(h).cloned().unwrap_or_default();
+        let ps = if ps.is_empty() { "-".to_string() } else { ps.iter().map(|p| ix(p)).collect::<Vec<_>>().join(",") };
+        let _ = write!(s, " o {h} {kk} {ps} {} {}", if tr.is_empty() { "-".into() } else { ix(&tr) }, if tg.is_empty() { "-".into() } else { ix(&tg) });
+    }
+    for line in text(&["for-each-ref", "--format=%(refname) %(objectname)"]).lines() {
+        if let Some((n, h)) = line.split_once(' ') {
+            let _ = write!(s, " r {} {}", hex(n.as_bytes()), ix(h));
+        }
+    }
+    let head = text(&["rev-parse", "-q", "--verify", "HEAD"]);
+    if !head.trim().is_empty() {
+        let _ = write!(s, " r {} {}", hex(b"HEAD"), ix(head.trim()));
+    }
+    let sym = git(dir, &["symbolic-ref", "-q", "HEAD"], None);
+    if sym.ok {
+        let _ = write!(s, " h {}", hex(String::from_utf8_lossy(&sym.stdout).trim().as_bytes()));
+    }
+    // reflogs, newest first, and the prior checkouts recorded in HEAD's log
+    fn logs(root: &Path, rel: &str, acc: &mut Vec<(String, PathBuf)>) {
+        if let Ok(rd) = std::fs::read_dir(root.join(rel)) {
+            for e in rd.filter_map(|e| e.ok()) {
+                let name = e.file_name().to_string_lossy().to_string();
+                let r = if rel.is_empty() { name.clone() } else { format!("{rel}/{name}") };
+                if e.path().is_dir() {
+                    logs(root, &r, acc);
+                } else {
+                    acc.push((r, e.path()));
+                }
+            }
+        }
+    }
+    let mut files = Vec::new();
+    logs(&dir.join(".git/logs"), "", &mut files);
+    files.sort();
+    for (name, path) in files {
+        let content = std::fs::read(&path).unwrap_or_default();
+        let mut news = Vec::new();
+        let mut checkouts = Vec::new();
+        for l in String::from_utf8_lossy(&content).lines() {
+            let (meta_part, msg) = l.split_once('\t').unwrap_or((l, ""));
+            let f: Vec<&str> = meta_part.split(' ').collect();
+            if f.len() < 2 {
+                continue;
+            }
+            news.push(ix(f[1]));
+            if let Some(rest) = msg.strip_prefix("checkout: moving from ") {
+                if let Some(p) = rest.find(" to ") {
+                    checkouts.push((rest[..p].to_string(), ix(f[0])));
+                }
+            }
+        }
+        news.reverse();
+        let _ = write!(s, " l {} {}", hex(name.as_bytes()), if news.is_empty() { "-".to_string() } else { news.join(",") });
+        if name == "HEAD" {
+            checkouts.reverse();
+            for (from, prev) in checkouts {
+                let _ = write!(s, " c {} {}", hex(from.as_bytes()), prev);
+            }
+        }
+    }
+    // tracking branches (fetch and push resolve to the same ref in these repositories)
+    for b in text(&["for-each-ref", "--format=%(refname:short)", "refs/heads"]).lines() {
+        let remote = text(&["config", "--get", &format!("branch.{b}.remote")]);
+        let merge = text(&["config", "--get", &format!("branch.{b}.merge")]);
+        if !remote.trim().is_empty() && merge.trim().starts_with("refs/heads/") {
+            let t = format!("refs/remotes/{}/{}", remote.trim(), &merge.trim()["refs/heads/".len()..]);
+            for push in [0, 1] {
+                let _ = write!(s, " u {} {push} {}", hex(format!("refs/heads/{b}").as_bytes()), hex(t.as_bytes()));
+            }
+        }
+    }
+    // tree entries by path, for every tree object (with and without a trailing slash for directories)
+    for (h, k) in &ids {
+        if k != "tree" {
+            continue;
+        }
+        let raw = out(&["ls-tree", "-r", "-t", "-z", h]);
+        for rec in raw.split(|b| *b == 0).filter(|r| !r.is_empty()) {
+            let tab = match rec.iter().position(|b| *b == b'\t') {
+                Some(t) => t,
+                None => continue,
+            };
+            let f: Vec<&str> = std::str::from_utf8(&rec[..tab]).unwrap_or("").split(' ').collect();
+            if f.len() != 3 {
+                continue;
+            }
+            let path = &rec[tab + 1..];
+            let _ = write!(s, " p {} {} {}", ix(h), hex(path), ix(f[2]));
+            if f[1] == "tree" {
+                let mut p2 = path.to_vec();
+                p2.push(b'/');
+                let _ = write!(s, " p {} {} {}", ix(h), hex(&p2), ix(f[2]));
+            }
+        }
+    }
+    let raw = out(&["ls-files", "-s", "-z"]);
+    for rec in raw.split(|b| *b == 0).filter(|r| !r.is_empty()) {
+        if let Some(tab) = rec.iter().position(|b| *b == b'\t') {
+            let f: Vec<&str> = std::str::from_utf8(&rec[..tab]).unwrap_or("").split(' ').collect();
+            if f.len() == 3 {
+                let _ = write!(s, " i {} {} {}", hex(&rec[tab + 1..]), f[2], ix(f[1]));
+            }
+        }
+    }
+    s
+}
+
+/// what `Repository::rev_parse` returned, as the resolution model prints it
+pub fn gix_outcome(repo: &gix::Repository, spec: &str) -> String {
+    let sp = spec.to_string();
+    match catch(|| repo.rev_parse(sp.as_str()).map(|s| s.detach())) {
+        Err(_) => "panic".into(),
+        Ok(Err(_)) => "err".into(),
+        Ok(Ok(s)) => {
+            use gix_revision::Spec as S;
+            match s {
+                S::Include(a) => format!("ok include {a}"),
+                S::Exclude(a) => format!("ok exclude {a}"),
+                S::Range { from, to } => format!("ok range {from} {to}"),
+                S::Merge { theirs, ours } => format!("ok merge {theirs} {ours}"),
+                S::IncludeOnlyParents(a) => format!("ok incparents {a}"),
+                S::ExcludeParents(a) => format!("ok excparents {a}"),
+            }
+        }
+    }
+}
+
+/// the `res` correspondence case: the resolution model predicts gitoxide's answer from the facts
+pub fn do_res(rep: &mut Report, repo: &gix::Repository, info: &RepoInfo, spec: &str) {
+    // commit-message search is an opaque function of the model: specs using it are not predicted
+    if spec.contains("^{/") || spec.starts_with(":/") || spec.contains(' ') || spec.is_empty() {
+        return;
+    }
+    let op = format!("res {}{}", hex(spec.as_bytes()), info.facts);
+    let obs = gix_outcome(repo, spec);
+    rep.bucket(if obs.starts_with("ok") { "res:ok" } else { "res:err" });
+    rep.case(&op, &obs, obs.starts_with("ok"));
+}
+
 
 /// one spec to check: the text and a stable label (no object ids) used as finding key
 pub struct Spec {
